@@ -208,7 +208,7 @@ theorem beginWait_newst (s : AState) (o h k j) :
   · exact ⟨.pending, rfl, by simp, by simp⟩
 
 /-- what `begin` appends -/
-theorem stepBegin_newst {w s o h k s'} (hs : stepBegin w s o h k = some s') :
+theorem stepBegin_newst_ce {w s o h k s'} (hs : stepBegin w s o h k = some s') :
     ∃ st, s'.ops = s.ops ++ [{ o, h, kind := k, st }] ∧ st ≠ .cancelled ∧ st ≠ .failed .canceled := by
   unfold stepBegin at hs
   split at hs
